@@ -280,6 +280,13 @@ def jobs(tier, seed):
                        "params": {"n": 2 if not bundle else 3, "steps": steps, "first": list(first), "all_vertices": tier == "thorough",
                                   "symbolic_placement": tier == "thorough", "bundle": bundle},
                        "budget_s": 280 if tier == "quick" else 1500, "max_paths": 4000 if tier == "quick" else 40000})
+    # longer histories around delete + repeated re-assembly (three boxes, every action forced; the deleted operation and the
+    # moved vertex are still chosen by the solver)
+    for first in (("write", "delete", "backport", "backport"), ("write", "delete", "backport", "move", "backport"),
+                  ("write", "delete", "clear", "write", "backport"), ("delete", "write", "backport", "move", "backport")):
+        js.append({"name": f"3boxes|{'>'.join(first)}", "fn": "run_first",
+                   "params": {"n": 3, "steps": len(first) - 1, "first": list(first), "symbolic_placement": False},
+                   "budget_s": 280 if tier == "quick" else 1500})
     if tier == "quick":
         # symbolic placement on the histories around move/backport
         for first in ("move", "delete"):
